@@ -16,9 +16,18 @@ from torchjd.autojac._transform import (Aggregate, Diagonalize, EmptyTensorDict,
 DT = torch.float64
 
 
-def ints(rng, shape, lo=-4, hi=5):
-    return torch.tensor([float(rng.randint(lo, hi)) for _ in range(max(1, numel(shape)))][:numel(shape)] if numel(shape)
+def ints(rng, shape, lo=-4, hi=5, big=False):
+    f = (2 ** 25 + 1) if big else 1          # k*(2^25+1): exact in double precision only
+    return torch.tensor([float(rng.randint(lo, hi) * f) for _ in range(max(1, numel(shape)))][:numel(shape)] if numel(shape)
                         else [], dtype=DT).reshape(shape)
+
+
+def no_casts(rng, gen):
+    """transforms are driven in ONE working precision here (cotangents and weights are built in DT)"""
+    while True:
+        x = gen(rng)
+        if not (x.P if hasattr(x, "P") else x).casts:
+            return x
 
 
 def flat(t):
@@ -54,6 +63,10 @@ def cmp(ctx, name, P, real, model_rep, conv, extra):
             ctx.violation(f"{name}: implementation {real}, model {model_rep}", rp)
             return False
         return True
+    for k, v in real[1].items():
+        if v.dtype != k.dtype:
+            ctx.violation(f"{name}: the entry for a {k.dtype} tensor is returned in {v.dtype}", rp)
+            return False
     got = conv(real[1])
     exp = (parse_j if name in ("Diagonalize", "Jac", "Stack") else parse_g)(model_rep[1])
     if got != exp:
@@ -80,7 +93,8 @@ def one_program(ctx: Ctx, P):
     cmp(ctx, "Init", P, real, rep, gconv, {"keys": ks})
     # --- Diagonalize (several keys, equal sizes and 0-d included, arbitrary cotangent values)
     ks = rng.sample(nodes, rng.randint(1, min(4, len(nodes))))
-    vals = {k: ints(rng, P.nodes[k].shape) for k in ks}
+    bigv = rng.random() < 0.3
+    vals = {k: ints(rng, P.nodes[k].shape, big=bigv) for k in ks}
     order = list(ks)
     rng.shuffle(order)
     real = run_real(lambda: Diagonalize([ts[k] for k in order])(Gradients({ts[k]: vals[k] for k in ks})))
@@ -104,8 +118,23 @@ def one_program(ctx: Ctx, P):
         m = rng.choice([1, 2, 3, 5])
         jc = {o: ints(rng, (m,) + tuple(P.nodes[o].shape)) for o in outs}
         chunk = rng.choice([None, 1, 2, m, m + 1])
-        real = run_real(lambda: Jac([ts[o] for o in outs], [ts[i] for i in ins], chunk, retain_graph=True)(
-            Jacobians({ts[o]: jc[o] for o in outs})))
+        jac_t = Jac([ts[o] for o in outs], [ts[i] for i in ins], chunk, retain_graph=True)
+        real = run_real(lambda: jac_t(Jacobians({ts[o]: jc[o] for o in outs})))
+        if real[0] == "ok":
+            # a transform is a function of its input: using the same instance again (same batch size, other cotangents)
+            # must neither change what it returned before nor be influenced by it
+            snap = {k: v.clone() for k, v in real[1].items()}
+            jc2 = {o: ints(rng, (m,) + tuple(P.nodes[o].shape)) for o in outs}
+            again = run_real(lambda: jac_t(Jacobians({ts[o]: jc2[o] for o in outs})))
+            ctx.count("jac_instance_reused")
+            if any(not torch.equal(real[1][k], snap[k]) for k in snap):
+                ctx.violation("Jac: calling the same instance again changed the Jacobians it had returned before",
+                              {"transform": "Jac-reuse", "program": P.describe(), "outs": outs, "ins": ins, "chunk": chunk, "batch": m})
+                return
+            rep2 = drv.ask(base + [["op", "jac", outs, ins, "none" if chunk is None else chunk],
+                                   ["input", *[[o, rows(jc2[o])] for o in outs]]])
+            if not cmp(ctx, "Jac", P, again, rep2, jconv, {"outs": outs, "ins": ins, "chunk": chunk, "batch": m, "second_call": True}):
+                return
         rep = drv.ask(base + [["op", "jac", outs, ins, "none" if chunk is None else chunk],
                               ["input", *[[o, rows(jc[o])] for o in outs]]])
         ok = cmp(ctx, "Jac", P, real, rep, jconv, {"outs": outs, "ins": ins, "chunk": chunk, "batch": m})
@@ -121,7 +150,7 @@ def one_program(ctx: Ctx, P):
         # --- Aggregate on the Jacobians just computed
         if real[0] == "ok":
             agg = rng.choice([("const", [rng.randint(-5, 7) for _ in range(m)]), ("sum",),
-                              ("probe", [rng.choice([-1, 1, 2]) for _ in range(m)])])
+                              ("probe", [rng.choice([-1, 1, 2]) for _ in range(m)])][:2 if P.big else 3])
             korder = list(ins)
             rng.shuffle(korder)
             jd = real[1]
@@ -196,9 +225,9 @@ def main(ctx: Ctx):
     ctx.lean_gate()
     n = 250 if ctx.tier == "quick" else 25000
     for i in range(n):
-        one_program(ctx, random_program(ctx.rng))
+        one_program(ctx, no_casts(ctx.rng, random_program))
         if i % 3 == 0:
-            chain(ctx, random_mtl(ctx.rng))
+            chain(ctx, no_casts(ctx.rng, random_mtl))
     return ctx.finish(
         rule="Init, Diagonalize, Select, Grad, Jac, Aggregate, Stack of torchjd.autojac._transform driven directly on "
              "random P-int programs with random key sets (several keys, equal-sized keys, 0-d..4-d, unreachable "
